@@ -45,6 +45,44 @@ CHECKS = {
         technique='Rocq proof + source pass-through fact + solver runs'),
 }
 
+SOLVER_NOTE = TB + ('the objective is an oracle (arbitrary stream of finite values / exceptions); theorems are generic in the numeric type and use only the order laws of < and <= '
+                    '(reals, non-NaN binary64); depq.DEPQ modelled as a stable descending list; pow() results taken from the implementation\'s own calls; '
+                    'the evolvent, scipy and listeners are outside this model.')
+CHECKS.update({
+    'C02': dict(
+        text='Theorem (Coq, generic numeric type): in every state reachable from the initial one by any number of iterations under ANY stream of objective values, '
+             'the subdivided interval has maximal stored characteristic among all intervals of the partition, the stored characteristics are the characteristics under '
+             'the current M and z* (cache-coherence invariant: sorted queue holding every interval exactly once), M >= 1 is 1 or a slope seen and dominates every slope seen, '
+             'the first trial is at 0.5 and every new point lies strictly inside its interval. All formulas are the gen_* functions translated from method.py on every run. '
+             'Tie: control skeletons of Method/SearchData/Process compared with the recorded ones, and bit-exact lock-step replay (all dimensions, ties, batches) of real runs through the model by coqc.',
+        design='5 C02', note=SOLVER_NOTE, technique='Rocq proof of a cache-coherence invariant by induction over iterations + generated formulas + bit-exact lock-step correspondence'),
+    'C03': dict(
+        text='Theorems: the Solve loop never exhausts its fuel (terminates), returns exactly the first state of the orbit satisfying the generated stop rule '
+             '(accuracy < eps or budget) or the first failing step, counts one trial per successful evaluation, accuracy = running python-min of subdivided lengths. '
+             'Tie as C02; direct oracle recomputes the stop index by single-stepping a twin solver (edge limits 1,2,3, eps >= 1, coarse densities, refinement on); '
+             'non-finite objective values are run in a subprocess with a timeout.',
+        design='5 C03', note=SOLVER_NOTE, technique='Rocq proof (measure argument + relational characterisation of Solve) + lock-step correspondence'),
+    'C04': dict(
+        text='Theorem: in every reachable state (and after a failing evaluation) the best trial is an evaluated item of the record with exactly that coordinate and value, '
+             'z* is its value and no evaluated item is smaller (ties keep the earlier). Tie as C02; the oracle checks the Solution inside every listener callback and after refinements.',
+        design='5 C04', note=SOLVER_NOTE + ' Local refinement (scipy Nelder-Mead) is checked by runs only.', technique='Rocq invariant proof + lock-step correspondence + callback oracle'),
+    'C06': dict(
+        text='Theorem: in every reachable state (and after a failing evaluation) the record runs 0 -> 1 strictly increasing with unevaluated ends and evaluated interior, '
+             'every stored length is hroot(x - x_left), count = trials + 2, identities distinct; each iteration inserts exactly the new trial. '
+             'Tie as C02 (the final record is compared bit-for-bit); the oracle traverses the real linked list (links both ways, images, values) after every iteration, after Solve with refinement and at float resolution.',
+        design='5 C06', note=SOLVER_NOTE + ' Pointer links are abstracted by list order in the model and checked on the implementation by the oracle.', technique='Rocq invariant proof + lock-step correspondence + record oracle'),
+    'C11': dict(
+        text='Theorems: DoGlobalIteration(a) ; DoGlobalIteration(b) = DoGlobalIteration(a+b); iterations made before the stop point followed by Solve = plain Solve (same state and sequence); '
+             'Solve is a function of the answers; a second Solve makes no trial; the stop rule is monotone. Tie as C02 with batched scripts; oracle runs all compositions of short runs, '
+             'aligned batch sweeps over long runs and GetResults() reads between batches.',
+        design='5 C11', note=SOLVER_NOTE, technique='Rocq proof of batch composition / determinism + lock-step correspondence on batched scripts'),
+    'C16': dict(
+        text='Theorem: if the evaluation after any k >= 1 completed trials raises, the Solve loop ends with the exception flag, trial count, best trial and every record item '
+             '(up to the cached characteristic) are those after the k completed trials and the record/optimum/estimate invariants hold. Tie: try/except BaseException position and '
+             'evaluate-count-update-insert order in the recorded skeletons; lock-step replay with failures injected (6 exception types); oracle injects a failure at EVERY evaluation index of runs.',
+        design='5 C16', note=SOLVER_NOTE, technique='Rocq proof (failure frame lemma) + fault injection at every index + lock-step correspondence'),
+})
+
 ORDER = ['C%02d' % i for i in range(1, 21)]
 NA_REASON = 'check under construction in this session; will be claimed once its proof and correspondence exist'
 
